@@ -82,6 +82,16 @@ pub fn parse_wkt_linestring(_idx: usize, row: String) -> Result<LineString<f32>,
         );
         std::io::Error::new(std::io::ErrorKind::InvalidData, msg)
     })?;
+    // the WKT reader accepts signed NaN and infinity literals ("+NaN", "-inf") and
+    // finite literals beyond the f32 range ("1e39" becomes infinity). such a coordinate
+    // cannot be written back as WKT or GeoJSON and has no position on the map.
+    if geom.0.iter().any(|c| !c.x.is_finite() || !c.y.is_finite()) {
+        let msg = format!(
+            "failure decoding LineString from lookup table. source: {}; error: coordinate is not a finite 32-bit number",
+            row
+        );
+        return Err(std::io::Error::new(std::io::ErrorKind::InvalidData, msg));
+    }
     Ok(geom)
 }
 
